@@ -341,7 +341,7 @@ def expression_recipes(quick, T, memo, run, ab):
     L3 = []
     if not quick:
         # comb for depth 3: the level-2 states over the three core terminals under the structural unary operators
-        un3 = ("abs", "sin", "var5", "pos", "vec1", "grad", "idx")
+        un3 = ("abs", "var5", "pos", "idx")
         bases3 = [r for r in L2 if recipe_terms(r) <= comb3]
         c = []
         for r in bases3:
@@ -355,7 +355,7 @@ def expression_recipes(quick, T, memo, run, ab):
         comb="level 1: every unary/indexing/binary operator over all (pairs of) operand terminals (+ operator zoo on 5 terminals); "
         "level 2: every unary/indexing operator over, and every binary operator (both orders) of a comb terminal with, each "
         "level-1 state built from comb terminals only"
-        + ("" if quick else "; level 3: abs/sin/variable/'+'/as_vector/grad/indexing over level-2 states built from the 3 core terminals"),
+        + ("" if quick else "; level 3: abs/variable/'+'/indexing over level-2 states built from the 3 core terminals"),
     )
     return L0 + L1 + L2 + L3
 
